@@ -9,7 +9,8 @@ META = {
     "level": "model_checking",
     "text": "ErrorTable.tla is a decision table: error source (picker, config selector, dial-level and call-level per-RPC credentials, "
             "dialer, codec marshal / unmarshal, RPC context, connection closed by either end, context ending during the retry backoff after a retryable first attempt (server "
-            "trailers-only UNAVAILABLE / failing picker, retry policy in the service config), server handler) x error value (plain error, status with each of the 16 "
+            "trailers-only UNAVAILABLE / failing picker, retry policy in the service config), a registered encoding.Compressor failing at Compress / Write / Close / "
+            "Decompress / Read, server handler) x error value (plain error, status with each of the 16 "
             "non-OK codes, an error wrapping such a status, context.Canceled, context.DeadlineExceeded, io.ErrUnexpectedEOF; context "
             "cancelled / expired before or during the RPC) x API (Invoke, NewStream/SendMsg/RecvMsg) -> set of legal surfaced codes, "
             "with the clauses IsStatus, DefinedCode, A54None, A54Internal. TLC checks the reference against the gRFC A54 clauses on "
